@@ -23,6 +23,12 @@ func (fr *Frame) noteDebugRef(d *ssa.DebugRef) {
 	if obj == nil {
 		return
 	}
+	if obj.Pkg() != nil && obj.Parent() == obj.Pkg().Scope() {
+		return // package-level object: always read through its global cell
+	}
+	if _, isVar := obj.(*types.Var); !isVar {
+		return
+	}
 	if fr.lastDef == nil {
 		fr.lastDef = map[string]localDef{}
 	}
@@ -239,6 +245,17 @@ func (w *World) VerifyFunc(key string) *Unit {
 		}
 	}
 	fr.params = nil
+	// global invariants of the function's package (proved for the package initialiser, or assumed with a reason)
+	if pk := calleePkg(fn); pk != nil {
+		for _, g := range w.Globals[pk.Path()] {
+			env := fr.specEnvAt(st, nil)
+			env.old = st
+			vc.fact(env.compileBool(g.Clause.Expr))
+			if g.Assumed {
+				vc.Assumed["global invariant assumed, not proved: "+g.Clause.Label] = true
+			}
+		}
+	}
 	// preconditions
 	var props []string
 	if sp != nil {
@@ -443,6 +460,9 @@ func (w *World) UnitKeys() []string {
 		if s.NoBody {
 			continue
 		}
+		if strings.Contains(k, ":init#") {
+			continue // verified inlined into the package initialiser
+		}
 		if s.Kind == "closure" {
 			continue // verified inlined into the parent
 		}
@@ -482,4 +502,69 @@ func (w *World) lemmaStatement(vc *VC, l *spec.Lemma) string {
 		return env.compileBool(body)
 	}
 	return env.compileBool(&spec.Quant{Forall: true, Vars: l.Vars, Body: body})
+}
+
+
+// VerifyInit proves the global invariants of a package for its initialiser: starting from
+// zero-valued globals, after running the synthetic init function (with the user's init
+// functions inlined) every non-assumed `global` clause holds.
+func (w *World) VerifyInit(pkgPath string) *Unit {
+	key := shortPath(pkgPath) + ":init"
+	vc := NewVC(w, key)
+	u := &Unit{Key: key, VC: vc}
+	p := w.PkgByPath[pkgPath]
+	if p == nil {
+		vc.outside("no such package %s", pkgPath)
+		return u
+	}
+	sp := w.Prog.Package(p.Types)
+	init := sp.Func("init")
+	if init == nil || init.Blocks == nil {
+		vc.outside("package %s has no initialiser", pkgPath)
+		return u
+	}
+	w.declareSorts(vc)
+	fr := vc.newFrame(init, nil)
+	fr.inlineInits = true
+	st := NewState()
+	for _, m := range sp.Members {
+		if g, ok := m.(*ssa.Global); ok {
+			c := w.globalCell(vc, g)
+			st.cells[c] = vc.S.Zero(g.Type().(*types.Pointer).Elem())
+		}
+	}
+	retCond, retState, _ := fr.run("true", st)
+	if retCond == "false" {
+		vc.outside("initialiser of %s does not return", pkgPath)
+		return u
+	}
+	for i, g := range w.Globals[pkgPath] {
+		if g.Assumed {
+			continue
+		}
+		env := fr.specEnvAt(retState, nil)
+		env.old = retState
+		env.pkg = p.Types
+		label := g.Clause.Label
+		if label == "" {
+			label = fmt.Sprint(i + 1)
+		}
+		vc.oblige(key, "global", label, g.Clause.Props, retCond, env.compileBool(g.Clause.Expr))
+	}
+	return u
+}
+
+// InitUnits lists the packages that have provable global invariants.
+func (w *World) InitUnits() []string {
+	var out []string
+	for p, gs := range w.Globals {
+		for _, g := range gs {
+			if !g.Assumed {
+				out = append(out, p)
+				break
+			}
+		}
+	}
+	sort.Strings(out)
+	return out
 }
